@@ -310,13 +310,19 @@ pub fn batch_mutations(ctx: &mut Ctx, prop: &str, n: usize) {
             let z = Fr::rand(&mut rng);
             let z2 = Fr::rand(&mut rng);
             for (j, p) in c.polys.iter().enumerate() {
-                let (pl, pt) = match j { 0 => ("pt0", z), 1 => ("pt1", z), _ => ("pt2", z2) };
+                // the two equal point values sit under labels (pt0, pt1), (pt0, pt2) or (pt1, pt2) in turn
+                let (pl, pt) = match ((i / 3) % 3, j) {
+                    (0, 0) => ("pt0", z), (0, 1) => ("pt1", z), (0, _) => ("pt2", z2),
+                    (1, 0) => ("pt0", z), (1, 1) => ("pt2", z), (1, _) => ("pt1", z2),
+                    (_, 0) => ("pt1", z), (_, 1) => ("pt2", z), (_, _) => ("pt0", z2),
+                };
                 qs.insert((p.label().clone(), (pl.to_string(), pt)));
                 ev.insert((p.label().clone(), pt), p.evaluate(&pt));
             }
             if coin(&mut rng) {
                 let p = &c.polys[0];
-                qs.insert((p.label().clone(), ("pt2".to_string(), z2)));
+                let odd_label = ["pt2", "pt1", "pt0"][(i / 3) % 3];
+                qs.insert((p.label().clone(), (odd_label.to_string(), z2)));
                 ev.insert((p.label().clone(), z2), p.evaluate(&z2));
             }
         }
